@@ -888,7 +888,10 @@ class Interp(Engine):
             callee_contract is not None and not force_inline and callee_contract is not self.contract
             and callee_contract.key not in self.contract.inline and not callee_contract.always_inline
         ) or (callee_contract is not None and callee_contract is self.contract and not force_inline and self.frames and self.frames[-1].fn is not None):
-            return self.call_modular(callee_contract, fn_u, args, kwargs)
+            if not (getattr(self.sh, "refute_bound", 0) and callee_contract is not self.contract
+                    and not self.modular_applicable(callee_contract, fn_u, args, kwargs)):
+                return self.call_modular(callee_contract, fn_u, args, kwargs)
+            # bounded refutation of an edited caller whose arguments no longer match the callee's verified variants: run the body
         mod = getattr(fn_u, "__module__", "") or ""
         if not (mod.startswith("ethosu") or mod.startswith("contracts") or mod.startswith("pyvc")):
             raise Unsupported("call to external function %s.%s" % (mod, getattr(fn_u, "__name__", fn_u)))
@@ -912,6 +915,15 @@ class Interp(Engine):
             self.call_depth -= 1
             self.frames.pop()
             self.cur_line = saved_line
+
+    def modular_applicable(self, c, fn, args, kwargs):
+        """Do the actual arguments have the kinds of one of the callee's verified variants?"""
+        try:
+            src = FuncSource.of(fn)
+            env = self.bind_params(src.node, args, kwargs, defaults_fn=fn)
+            return any(all(self.kind_matches(env[pn], pT) for pn, pT in cand.items() if pn in env) for cand in c.variants.values())
+        except Exception:
+            return False
 
     def call_modular(self, c, fn, args, kwargs):
         """Assert requires, havoc modifies, assume ensures of the callee's contract."""
